@@ -109,4 +109,115 @@ theorem table_step_inv (ring0 : List Nat) (rules0 : List Block) (f : TSt) (hf : 
             intro j hj b hb
             exact hseen j (by omega) b hb
 
+/-! ### projection of a goroutine onto its core micro-steps -/
+
+theorem noncore_frame (op : TOp) (h : op.coreStep = none) (s : TState) (l : TLocal) :
+    (op.sem s l).1.core = s.core ∧ (op.sem s l).2.core = l.core := by
+  cases op with
+  | core f => simp [TOp.coreStep] at h
+  | pick N => simp [TOp.coreStep] at h
+  | ringRead =>
+    simp only [TOp.sem, ringRead]
+    cases l.core.picks.getLast? <;> exact ⟨rfl, rfl⟩
+  | scanBegin a => exact ⟨rfl, rfl⟩
+  | scanIter =>
+    simp only [TOp.sem, scanIter]
+    repeat' split
+    all_goals exact ⟨rfl, rfl⟩
+  | tableRead => exact ⟨rfl, rfl⟩
+
+theorem set_same {α : Type} (l : List α) (i : Nat) (a : α) (h : l[i]? = some a) : l.set i a = l := by
+  obtain ⟨hi, ha⟩ := List.getElem?_eq_some_iff.mp h
+  subst ha
+  exact List.set_getElem_self hi
+
+theorem run_proj (sch : List Nat) : ∀ (ts : List STh) (s : TState),
+    ∃ (sch' : List Nat) (ts' : List STh),
+      (run sch (ts.map STh.toT) s).2 = ts'.map STh.toT ∧
+      run sch' (ts.map STh.proj) s.core = ((run sch (ts.map STh.toT) s).1.core, ts'.map STh.proj) := by
+  induction sch with
+  | nil => intro ts s; exact ⟨[], ts, rfl, rfl⟩
+  | cons i sch ih =>
+    intro ts s
+    simp only [run]
+    cases hget : ts[i]? with
+    | none =>
+      have h1 : stepAt i (ts.map STh.toT) s = (s, ts.map STh.toT) := by
+        unfold stepAt; simp [List.getElem?_map, hget]
+      rw [h1]; exact ih ts s
+    | some t =>
+      cases hops : t.ops with
+      | nil =>
+        have h1 : stepAt i (ts.map STh.toT) s = (s, ts.map STh.toT) := by
+          unfold stepAt; simp [List.getElem?_map, hget, STh.toT, hops]
+        rw [h1]; exact ih ts s
+      | cons op rest =>
+        have h1 : stepAt i (ts.map STh.toT) s
+            = ((op.sem s t.loc).1, (ts.set i { ops := rest, loc := (op.sem s t.loc).2 }).map STh.toT) := by
+          unfold stepAt; simp [List.getElem?_map, hget, STh.toT, hops, List.map_set]
+        rw [h1]
+        obtain ⟨sch1, ts', e1, e2⟩ := ih (ts.set i { ops := rest, loc := (op.sem s t.loc).2 }) (op.sem s t.loc).1
+        cases hc : op.coreStep with
+        | some f =>
+          have hsem : op.sem = liftCore f := by
+            cases op <;> simp [TOp.coreStep] at hc <;> subst hc <;> rfl
+          refine ⟨i :: sch1, ts', e1, ?_⟩
+          simp only [run]
+          have h2 : stepAt i (ts.map STh.proj) s.core
+              = ((op.sem s t.loc).1.core,
+                 (ts.set i { ops := rest, loc := (op.sem s t.loc).2 }).map STh.proj) := by
+            unfold stepAt
+            simp [List.getElem?_map, hget, STh.proj, hops, List.map_set, hc, hsem, liftCore]
+          rw [h2]; exact e2
+        | none =>
+          obtain ⟨c1, c2⟩ := noncore_frame op hc s t.loc
+          refine ⟨sch1, ts', e1, ?_⟩
+          have h3 : (ts.set i { ops := rest, loc := (op.sem s t.loc).2 }).map STh.proj = ts.map STh.proj := by
+            rw [List.map_set]
+            apply set_same
+            simp [List.getElem?_map, hget, STh.proj, hops, hc, c2]
+          rw [h3, c1] at e2; exact e2
+
+
+theorem sem_tableStep (op : TOp) : TableStep op.sem := by
+  cases op with
+  | core f => exact .core f
+  | pick N => exact .core _
+  | ringRead => exact .ring
+  | scanBegin a => exact .begin a
+  | scanIter => exact .iter
+  | tableRead => exact .read
+
+theorem filterMap_replicate_none (k : Nat) (op : TOp) (h : op.coreStep = none) :
+    (List.replicate k op).filterMap TOp.coreStep = [] := by
+  induction k with
+  | zero => rfl
+  | succ k ih => rw [List.replicate_succ, List.filterMap_cons, h]; exact ih
+
+theorem requestOps_core (N n : Nat) (a : Addr) : (requestOps N n a).filterMap TOp.coreStep = pickRepaired N := by
+  unfold requestOps
+  rw [List.filterMap_append, filterMap_replicate_none _ _ rfl]
+  rfl
+
+theorem requestThread_proj (N n : Nat) (as : List Addr) :
+    (requestThread N n as).proj = rrThreadRepaired N as.length := by
+  have h : ∀ as : List Addr, (as.flatMap (requestOps N n)).filterMap TOp.coreStep
+      = (List.replicate as.length (pickRepaired N)).flatten := by
+    intro as
+    induction as with
+    | nil => rfl
+    | cons a as ih =>
+      rw [List.flatMap_cons, List.filterMap_append, requestOps_core, ih, List.length_cons, List.replicate_succ,
+        List.flatten_cons]
+  simp only [STh.proj, requestThread, rrThreadRepaired, mkThread, h]
+
+theorem readerThread_proj (N k : Nat) : (readerThread k).proj = rrThreadRepaired N 0 := by
+  have h : (List.replicate k TOp.tableRead).filterMap TOp.coreStep = [] := filterMap_replicate_none k .tableRead rfl
+  simp only [STh.proj, readerThread, rrThreadRepaired, mkThread, h]
+  rfl
+
+theorem allPicks_proj (ts : List STh) : allPicks (ts.map STh.proj) = allPicksT (ts.map STh.toT) := by
+  simp only [allPicks, allPicksT, List.flatMap_map]
+  rfl
+
 end Fabio.Lemmas.C06
